@@ -188,6 +188,7 @@ p_ini_file_parse (PIniFile	*file,
 	pchar		key[P_INI_FILE_MAX_LINE + 1];
 	pchar		value[P_INI_FILE_MAX_LINE + 1];
 	pint		bom_shift;
+	pboolean	quoted;
 
 	if (P_UNLIKELY (file == NULL)) {
 		p_error_set_error_p (error,
@@ -260,8 +261,8 @@ p_ini_file_parse (PIniFile	*file,
 				section = pp_ini_file_section_new (key);
 			}
 		} else if (dst_line[0] != ';' && dst_line[0] != '#' &&
-			   (sscanf (dst_line, "%[^=] = \"%[^\"]\"", key, value) == 2 ||
-			    sscanf (dst_line, "%[^=] = '%[^\']'", key, value) == 2 ||
+			   ((quoted = (sscanf (dst_line, "%[^=] = \"%[^\"]\"", key, value) == 2 ||
+				       sscanf (dst_line, "%[^=] = '%[^\']'", key, value) == 2)) == TRUE ||
 			    sscanf (dst_line, "%[^=] = %[^;#]", key, value) == 2)) {
 			/* New parameter found */
 			if ((tmp_str = p_strchomp (key)) != NULL) {
@@ -280,7 +281,7 @@ p_ini_file_parse (PIniFile	*file,
 					strcpy (value, tmp_str);
 					p_free (tmp_str);
 
-					if (strcmp (value, "\"\"") == 0 || (strcmp (value, "''") == 0))
+					if (!quoted && (strcmp (value, "\"\"") == 0 || (strcmp (value, "''") == 0)))
 						value[0] = '\0';
 
 					if (section != NULL && (param = pp_ini_file_parameter_new (key, value)) != NULL)
